@@ -310,7 +310,10 @@ func c08One(c *vf.Ctx, sub string, i int, r *rand.Rand, k c08Cfg, ids []Ident) {
 		for _, p := range pubs {
 			open += p.front.OpenRequests()
 		}
-		if tl.count("watch.recv") == a && tl.count("async.enter") == tl.count("async.exit") && tl.count("watch.swap.spawn") == tl.count("async.enter") && open == 0 {
+		// (every received announcement must also have been put into the pending slot: the watcher may be
+		// anywhere between receiving and swapping)
+		if tl.count("watch.recv") == a && tl.count("watch.swap.spawn")+tl.count("watch.swap.replaced") == a &&
+			tl.count("async.enter") == tl.count("async.exit") && tl.count("watch.swap.spawn") == tl.count("async.enter") && open == 0 {
 			quiet = true
 			break
 		}
